@@ -2,13 +2,13 @@ CONSTANTS
   B = 4
   NBlocks = 3
   Lens = {0, 1, 3, 4, 5}
-  MaxAppends = 3
+  MaxAppends = 4
   MaxCrashes = 2
   MaxDamage = 1
-  DamageKinds = {"zero", "type", "crc", "len"}
-  PayZero = {FALSE, TRUE}
-  EndOnBadHeader = FALSE
-  ClearBehind = TRUE
+  DamageKinds = {"type"}
+  PayZero = {FALSE}
+  EndOnBadHeader = TRUE
+  ClearBehind = FALSE
 INIT Init
 NEXT Next
 INVARIANTS NoSplice NoDamageExact TypeOk
